@@ -913,8 +913,18 @@ impl<'a, 'b> TryInto<AnnotationBuilder<'a>> for AnnotationCsv<'a> {
                                 let begin: Cursor = self.begin.as_str().try_into()?;
                                 let end: Cursor = self.end.as_str().try_into()?;
                                 Some(Offset::new(begin, end))
-                            } else {
+                            } else if self.begin.as_str().is_empty() && self.end.as_str().is_empty()
+                            {
                                 None
+                            } else {
+                                //only one of the two was given, that is not an offset: refuse rather than silently dropping it
+                                return Err(StamError::CsvError(
+                                    format!(
+                                        "AnnotationSelector has only one of BeginOffset ('{}') and EndOffset ('{}'), expected both or neither",
+                                        self.begin, self.end
+                                    ),
+                                    "AnnotationSelector",
+                                ));
                             };
                         SelectorBuilder::AnnotationSelector(
                             BuildItem::Id(annotation.to_string()),
@@ -1056,6 +1066,13 @@ impl<'a, 'b> TryInto<AnnotationBuilder<'a>> for AnnotationCsv<'a> {
                                 let begin: Cursor = beginoffsets.get(i).unwrap().deref().try_into()?;
                                 let end: Cursor = endoffsets.get(i).unwrap().deref().try_into()?;
                                 Some(Offset::new(begin, end))
+                            } else if endoffsets.get(i).is_some() && !endoffsets.get(i).unwrap().is_empty() {
+                                return Err(StamError::CsvError(
+                                format!(
+                                    "No begin offset specified for subselector #{}", i
+                                ),
+                                "AnnotationSelector",
+                                ));
                             } else {
                                 None
                             };
